@@ -382,6 +382,8 @@ CLASS_OF = {'piece_boundary': 'within_word_accepts_at_piece_boundary', 'last_wor
 def run(ctx, res):
     with build.Lock():
         exe = build.harness()
+    from . import e2e
+    e2e.capstone_obligations(res, 'C01_')      # from the grammar TEXT: Props/Capstone.v C01_compile_bash_meaning
     if ctx.get('replay'):
         replay_file(exe, ctx['replay'], res)
         res.rule = 'replay of one recorded case'
